@@ -422,7 +422,7 @@ type stepRecord struct {
 
 func main() {
 	r := ev.Start("C44", "exploration")
-	r.SetRule("one case = one configuration change of a started real client: 1..6 tunnels over 9 loopback targets (5 http, 2 https self-signed, 2 tcp) with seeded options (insecure, headerMode, headerHost, headerTimeout); the change removes / retargets / re-options / adds tunnels (sometimes re-adding a hostname removed earlier) and is applied by RebuildTunnels or by rewriting the file and POST /api/reload; proxies are warm from the previous probes; in about half of the steps 1..2 incoming connections for hostnames of the old configuration are delivered from another goroutine at the hook between proxy invalidation and router rebuild. After the change every configured hostname and every hostname configured earlier is probed with a new connection. Non-trivial: the change touched at least one hostname. Distinct by (method, kinds of change present, window connection delivered / finished inside the window, window hostname's kind of change)")
+	r.SetRule("one case = one configuration change of a started real client: 1..6 tunnels over 9 loopback targets (5 http, 2 https self-signed, 2 tcp) with seeded options (insecure, headerMode, headerHost, headerTimeout); the change removes / retargets / re-options / adds tunnels (sometimes re-adding a hostname removed earlier) and is applied by RebuildTunnels or by rewriting the file and POST /api/reload, or (a fifth of the steps) one tunnel at any position of the list is taken out through UnpublishTunnel / ReleaseTunnel; proxies are warm from the previous probes; in about half of the steps 1..2 incoming connections for hostnames of the old configuration are delivered from another goroutine at the hook between proxy invalidation and router rebuild. After the change every configured hostname and every hostname configured earlier is probed with a new connection. Non-trivial: the change touched at least one hostname. Distinct by (method, kinds of change present, window connection delivered / finished inside the window, window hostname's kind of change)")
 	r.Assume("the window connection itself is not judged (it is concurrent with the change); whether it finished inside the window is recorded")
 	r.Assume("expected Host header and TLS behaviour are taken from tun/client/config.example.yaml; headerTimeout changes are applied but their effect is not observed")
 	targets, stopTargets := startTargets()
@@ -608,7 +608,27 @@ func main() {
 			}
 			method := "rebuild"
 			point := "client.rebuild.window"
-			if rng.Intn(2) == 0 {
+			if len(old) > 0 && rng.Intn(5) == 0 {
+				// the third way a configuration changes: one tunnel is taken out through the client's
+				// own UnpublishTunnel / ReleaseTunnel (from any position of the list, more often not the last)
+				method = []string{"unpublish", "release"}[rng.Intn(2)]
+				vi := rng.Intn(len(old))
+				if len(old) > 1 && rng.Intn(2) == 0 {
+					vi = rng.Intn(len(old) - 1)
+				}
+				next, changes = nil, map[string]string{old[vi].Hostname: "removed"}
+				for i, t := range old {
+					if i != vi {
+						next = append(next, t)
+					}
+				}
+				removedPool = append(removedPool, old[vi].Hostname)
+				if vi == len(old)-1 {
+					r.Count("api_removals_of_the_last_tunnel", 1)
+				} else {
+					r.Count("api_removals_of_a_tunnel_followed_by_others", 1)
+				}
+			} else if rng.Intn(2) == 0 {
 				method = "reload"
 				point = "client.reload.window"
 				if rng.Intn(5) == 0 {
@@ -618,7 +638,7 @@ func main() {
 			// window connections
 			var wconns []windowConn
 			var wmu sync.Mutex
-			wantWindow := rng.Intn(2) == 0 && len(old) > 0 && os.Getenv("VERIF_C44_NOWINDOW") == ""
+			wantWindow := rng.Intn(2) == 0 && len(old) > 0 && os.Getenv("VERIF_C44_NOWINDOW") == "" && (method == "rebuild" || method == "reload")
 			var whosts []tun
 			if wantWindow {
 				var touched, untouched []tun
@@ -656,6 +676,25 @@ func main() {
 			hs.mu.Unlock()
 
 			switch method {
+			case "unpublish", "release":
+				var victim client.Tunnel
+				for h := range changes {
+					for _, t := range toClient(old) {
+						if t.Hostname == h {
+							victim = t
+						}
+					}
+				}
+				var err error
+				if method == "unpublish" {
+					err = rig.Client.UnpublishTunnel(rig.Ctx, victim)
+				} else {
+					err = rig.Client.ReleaseTunnel(rig.Ctx, victim)
+				}
+				if err != nil {
+					r.Inconclusive(fmt.Sprintf("%s: %s of %s failed: %v", cname, method, victim.Hostname, err))
+					abort = true
+				}
 			case "rebuild":
 				rig.Client.RebuildTunnels(toClient(next))
 			case "reload":
